@@ -11,104 +11,31 @@ from __future__ import annotations
 
 import ast
 
-from .interp import Closure, Interp, Obj, Raised, Sym
-from .loader import AnalysisError, Class
+from .absbase import FinamInterp, Logger, Ref
+from .interp import Closure, Obj, Raised, Sym
 
 
-class Logger(Obj):
-    pass
-
-
-class SchedInterp(Interp):
+class SchedInterp(FinamInterp):
     def __init__(self, repo):
         super().__init__(repo)
         self.updates = []
         self.delay_ids = {}
 
-    # --- hooks -------------------------------------------------------------
     def get_attr(self, obj, attr, node, mod):
-        if isinstance(obj, Logger):
-            return Sym("logcall", attr)
-        if isinstance(obj, Obj) and attr == "logger":
-            return Logger(label="logger")
-        if isinstance(obj, Obj) and attr == "update" and "component" in obj.markers:
-            return Sym("update", _Id(obj))
-        if isinstance(obj, str):
-            return Sym("strmethod", attr)
-        if isinstance(obj, Sym) and obj.op in ("fstr", "str"):
-            return Sym("strmethod", attr)
-        if isinstance(obj, Obj) and attr == "__class__":
-            return Obj(label="class", fields={"__name__": obj.label})
+        if isinstance(obj, Obj) and not isinstance(obj, Logger) and attr == "update" and "component" in obj.markers:
+            return Sym("update", Ref(obj))
         return super().get_attr(obj, attr, node, mod)
 
     def call_hook(self, fv, args, kwargs, node, mod):
-        if isinstance(fv, Sym):
-            if fv.op == "logcall":
-                return None
-            if fv.op == "strmethod":
-                return Sym("str", fv.args[0])
-            if fv.op == "update":
-                self.updates.append(fv.args[0].obj)
-                return None
+        if isinstance(fv, Sym) and fv.op == "update":
+            self.updates.append(fv.args[0].obj)
+            return None
         if isinstance(fv, Closure) and getattr(fv.func, "name", "") == "with_delay":
             o = fv.self_obj
             idx = self.delay_ids.setdefault(id(o), len(self.delay_ids))
             name = o.fields.get("_dname", f"d{idx}")
             return Sym(name, args[0])
-        if isinstance(fv, Class) and fv.name == "ErrorLogger":
-            return Obj(label="ErrorLogger")
-        if isinstance(fv, Closure) and getattr(fv.func, "name", "") in ("is_loggable",):
-            return True
-        return NotImplemented
-
-    def isinstance(self, v, klass, node):
-        if isinstance(klass, tuple):
-            return any(self.isinstance(v, k, node) for k in klass)
-        if not isinstance(klass, Class):
-            raise AnalysisError(f"isinstance against {klass!r}")
-        if isinstance(v, Obj):
-            if v.cls is not None:
-                return self.repo.is_subclass(v.cls, klass) or klass.name in v.markers
-            return klass.name in v.markers
-        return False
-
-    def sym_compare(self, op, left, right, node):
-        if isinstance(left, Sym) and isinstance(right, Sym) and left.op == "enum" and right.op == "enum":
-            eq = left == right
-            if isinstance(op, ast.Eq):
-                return eq
-            if isinstance(op, ast.NotEq):
-                return not eq
-        if isinstance(op, (ast.Eq, ast.NotEq)) and (left is None or right is None):
-            return isinstance(op, ast.NotEq)
-        name = {ast.Lt: "lt", ast.LtE: "le", ast.Gt: "gt", ast.GtE: "ge", ast.Eq: "eq", ast.NotEq: "ne"}.get(type(op))
-        if name is None:
-            return super().sym_compare(op, left, right, node)
-        # canonical orientation: lt/le only
-        if name == "gt":
-            return Sym("lt", right, left)
-        if name == "ge":
-            return Sym("le", right, left)
-        return Sym(name, left, right)
-
-    def construct(self, cls, args, kwargs, node):
-        return super().construct(cls, args, kwargs, node)
-
-
-class _Id:
-    __slots__ = ("obj",)
-
-    def __init__(self, obj):
-        self.obj = obj
-
-    def __eq__(self, o):
-        return isinstance(o, _Id) and o.obj is self.obj
-
-    def __hash__(self):
-        return id(self.obj)
-
-    def __repr__(self):
-        return repr(self.obj)
+        return super().call_hook(fv, args, kwargs, node, mod)
 
 
 # ------------------------------------------------------------------ topology
@@ -203,4 +130,4 @@ def outcome_repr(out):
     return f"ret {v!r}"
 
 
-__all__ = ["SchedInterp", "Topo", "data_path_term", "Raised", "outcome_repr"]
+__all__ = ["SchedInterp", "Topo", "data_path_term", "Raised", "outcome_repr", "Logger", "Ref"]
